@@ -847,6 +847,9 @@ func binop(op token.Token, t types.Type, x, y value) value {
 // If t is a reference type, at most one of x or y may be a nil value
 // of that type.
 func eqnil(t types.Type, x, y value) bool {
+	if t == nil {
+		return equals(t, x, y)
+	}
 	switch t.Underlying().(type) {
 	case *types.Map, *types.Signature, *types.Slice:
 		// Since these types don't support comparison,
